@@ -1,0 +1,99 @@
+//go:build verif
+
+// Package tool is a verification-only facade (build tag "verif") over the
+// downstream half of the toolchain: image building from printed .proto text,
+// source API, client API, OpenAPI export, and the .proto printer. It adds no
+// behaviour: it only makes internal entry points reachable from the external
+// verification harness.
+package tool
+
+import (
+	"context"
+	"encoding/json"
+	"os"
+	"testing/fstest"
+
+	"github.com/bufbuild/protocompile"
+	"github.com/pentops/j5/gen/j5/client/v1/client_j5pb"
+	"github.com/pentops/j5/gen/j5/source/v1/source_j5pb"
+	"github.com/pentops/j5/internal/export"
+	"github.com/pentops/j5/internal/j5client"
+	"github.com/pentops/j5/internal/j5s/protoprint"
+	"github.com/pentops/j5/internal/protosrc"
+	"github.com/pentops/j5/internal/structure"
+	"google.golang.org/protobuf/reflect/protoreflect"
+)
+
+type noFiles struct{}
+
+func (noFiles) FindFileByPath(filename string) (protocompile.SearchResult, error) {
+	return protocompile.SearchResult{}, os.ErrNotExist
+}
+
+func mapFS(files map[string]string) fstest.MapFS {
+	out := fstest.MapFS{}
+	for name, content := range files {
+		out[name] = &fstest.MapFile{Data: []byte(content)}
+	}
+	return out
+}
+
+// ReadFSImage is protosrc.ReadFSImage over an in-memory bundle directory
+// (what `j5 j5s genproto` leaves on disk), with the package list a bundle
+// config would supply.
+func ReadFSImage(ctx context.Context, files map[string]string, packages []string) (*source_j5pb.SourceImage, error) {
+	img, err := protosrc.ReadFSImage(ctx, mapFS(files), nil, noFiles{})
+	if err != nil {
+		return nil, err
+	}
+	for _, name := range packages {
+		img.Packages = append(img.Packages, &source_j5pb.PackageInfo{Name: name})
+	}
+	return img, nil
+}
+
+func APIFromImage(img *source_j5pb.SourceImage) (*source_j5pb.API, error) {
+	return structure.APIFromImage(img)
+}
+
+func APIFromSource(api *source_j5pb.API) (*client_j5pb.API, error) {
+	return j5client.APIFromSource(api)
+}
+
+// BuildSwagger returns the export document as an opaque value.
+func BuildSwagger(api *client_j5pb.API) (any, error) {
+	doc, err := export.BuildSwagger(api)
+	if err != nil {
+		return nil, err
+	}
+	return doc, nil
+}
+
+// MarshalSwagger is the json.Marshal step of `j5 schema swagger`.
+func MarshalSwagger(doc any) ([]byte, error) {
+	return json.Marshal(doc)
+}
+
+// PrintFile renders a descriptor as .proto text with the real printer.
+func PrintFile(ctx context.Context, f protoreflect.FileDescriptor, genComment string) (string, error) {
+	return protoprint.PrintFile(ctx, f, genComment)
+}
+
+// ParseProto parses and links the named files from the in-memory tree with
+// the resolver chain ReadFSImage uses (bundle files, then built-in protos),
+// keeping comments.
+func ParseProto(ctx context.Context, files map[string]string, names []string) ([]protoreflect.FileDescriptor, error) {
+	resolver := protocompile.CompositeResolver{
+		protosrc.NewFSResolver(mapFS(files)),
+		protosrc.BuiltinResolver,
+	}
+	linked, err := protosrc.NewCompiler(resolver).CompileToLinkers(ctx, names)
+	if err != nil {
+		return nil, err
+	}
+	out := make([]protoreflect.FileDescriptor, 0, len(linked))
+	for _, f := range linked {
+		out = append(out, f)
+	}
+	return out, nil
+}
